@@ -281,7 +281,11 @@ func runC18(e *hk.Env) (retErr error) {
 	// prep: state of the existing destination file (kinds other-file / symlink-to-other) relative to the source:
 	//   1..6 = (size, mtime, content) same or different, 7 = the destination is the product of an earlier
 	//   CopyFile(X, dest) by the code under test and the source has X's size and modification time.
-	srcSpell, dstSpell, prep := 0, 0, 0
+	// nameRel: the two NAMES are related, as in "write NAME.tmp, then move it to NAME" or "keep NAME.bak": k > 0: the
+	//   source is <dest><relSuffixes[k]> in the destination's directory, k < 0: the destination is <source><suffix>.
+	srcSpell, dstSpell, prep, nameRel := 0, 0, 0, 0
+	relSuffixes := []string{"", ".tmp", "~", ".bak", ".part", ".new", ".old", ".swp"}
+	byNameRel := map[string]int{}
 	spellNames := []string{"plain", "symlink/..", "double-slash", "tilde-file", "dot-tilde-file", "tilde-dir"}
 	prepNames := []string{"-", "size!=,mtime!=", "size!=,mtime==", "size==,mtime!=,content!=", "size==,mtime==,content!=",
 		"size==,mtime!=,content==", "size==,mtime==,content==", "two-step: X->D, then Y->D with X's size and mtime"}
@@ -351,6 +355,9 @@ func runC18(e *hk.Env) (retErr error) {
 			if dstSpell == 3 || dstSpell == 4 {
 				return "~"
 			}
+			if nameRel < 0 {
+				return n + relSuffixes[-nameRel]
+			}
 			return n
 		}
 		orig := makeContent(class, size, fill)
@@ -415,7 +422,7 @@ func runC18(e *hk.Env) (retErr error) {
 			retErr = fmt.Errorf("kind dev-full must not be run")
 			return
 		case kSymlinkDevFull:
-			dst = filepath.Join(dstDir, "full.lnk")
+			dst = filepath.Join(dstFileDir, nm("full.lnk"))
 			setupOK = os.Symlink("/dev/full", dst) == nil
 		case kNoWriteDir:
 			ro := filepath.Join(dstDir, "ro")
@@ -429,6 +436,30 @@ func runC18(e *hk.Env) (retErr error) {
 		if !setupOK {
 			e.Count("setup_failed", 1)
 			return
+		}
+
+		// related names: the source moves into the destination's directory (same device only)
+		if nameRel != 0 && !srcMissing {
+			if other {
+				retErr = fmt.Errorf("related names need one device")
+				return
+			}
+			var newSrc string
+			if nameRel > 0 {
+				newSrc = dst + relSuffixes[nameRel]
+			} else {
+				newSrc = strings.TrimSuffix(dst, relSuffixes[-nameRel])
+			}
+			if newSrc == dst || os.Rename(src, newSrc) != nil {
+				e.Count("setup_failed", 1)
+				return
+			}
+			src = newSrc
+			if nameRel > 0 {
+				byNameRel["src = dst+"+relSuffixes[nameRel]]++
+			} else {
+				byNameRel["dst = src+"+relSuffixes[-nameRel]]++
+			}
 		}
 
 		// state of the existing destination relative to the source
@@ -599,7 +630,7 @@ func runC18(e *hk.Env) (retErr error) {
 
 		fields := []string{strconv.Itoa(op), strconv.Itoa(kind), b2s(other), b2s(srcMissing), b2s(size > 0),
 			b2s(ok), b2s(srcPresent), b2s(srcOrig), b2s(dstOrig), b2s(thirdOK), strconv.Itoa(size), strconv.Itoa(variant), strconv.Itoa(class),
-			strconv.Itoa(srcSpell), strconv.Itoa(dstSpell), strconv.Itoa(prep)}
+			strconv.Itoa(srcSpell), strconv.Itoa(dstSpell), strconv.Itoa(prep), strconv.Itoa(nameRel)}
 		e.Case(append([]string{"E"}, fields...)...)
 		byKind[[]string{"CopyFile", "MoveFile"}[op]+"/"+kindNames[kind]+map[bool]string{false: "", true: "/other-device"}[other]+map[bool]string{false: "", true: "/missing-source"}[srcMissing]]++
 		byOutcome[fmt.Sprintf("ok=%v src_present=%v src_orig=%v dst_orig=%v", ok, srcPresent, srcOrig, dstOrig)]++
@@ -730,6 +761,28 @@ func runC18(e *hk.Env) (retErr error) {
 			}
 		}
 	}
+	// ---- related names of source and destination (temporary / backup suffixes), both directions
+	for _, size := range []int{1, 4096} {
+		for op := 0; op < 2; op++ {
+			for rel := 1; rel < len(relSuffixes); rel++ {
+				for _, dir := range []int{1, -1} {
+					for _, kind := range []int{kMissing, kOther, kDir, kSymlinkToOther, kSymlinkDevFull} {
+						if kind == kSymlinkDevFull && !devFullOK {
+							continue
+						}
+						variant++
+						nameRel = dir * rel
+						one(op, kind, false, false, size, variant, 0)
+						nameRel = 0
+					}
+				}
+			}
+			if retErr != nil {
+				return retErr
+			}
+		}
+	}
+	e.Stats["by_name_relation"] = byNameRel
 	// ---- existing destinations in every relation of size / modification time / content to the source, and
 	// two-step sequences onto one destination
 	prepSizes := []int{0, 1, 10, 4096, 65536}
